@@ -73,9 +73,9 @@ CHECKS = {
               "for any hash function); relation equality ignores child order; model equality holds exactly when root names agree "
               "and the multisets of feature names, relation keys (owner, sorted members, min, max) and lower-cased constraint "
               "texts coincide — which gives both order-independence and 'any structural difference => unequal'; an "
-              "order-permuted copy (recursively) is equal. Tie to the code: suite Q2 compares ==, hash, <, set/dict use."),
+              "order-permuted copy (recursively) is equal. Tie to the code: suite Q2 compares ==, hash, <, set/dict use. Source tie (DESIGN §10): Feature / Relation / Constraint / FeatureModel __eq__, __lt__ and _sort_key are re-translated from feature_model.py on every run (stable sorted(), list and tuple comparison as Python defines them) and proved equal to the hand model (C20_source_is_model); reflexivity, symmetry, the order-insensitive characterisation, permuted copies and equal-hash are restated about the translated source."),
         note="Coq kernel; extraction/driver; harness; Python's sorted() modelled as a stable insertion sort; str.lower as a parameter; no axioms",
-        technique="Coq proof over hand-written Gallina model + differential correspondence",
+        technique="Coq proof over hand-written Gallina model + differential correspondence + source re-translated into Gallina on every run (tools/py2coq.py) and proved equal to the model",
         design="4 C20"),
     "C05": dict(
         text=("Theorems over the Gallina transcription of json_writer.to_json and json_reader.parse_tree/parse_constraints: for "
@@ -106,9 +106,9 @@ CHECKS = {
               "normal form [glencoe_norm m] (children sorted by name, mandatory-beside-group relations first, requires spelled "
               "implies): same names, same constraint names, constraints equal under every assignment; the normal form is in the "
               "fragment and a fixed point, so further cycles change nothing. Feature-table lookups by name, the path bookkeeping "
-              "of grouped / non-grouped children and the reader's fuel are all covered by the proof."),
+              "of grouped / non-grouped children and the reader's fuel are all covered by the proof. Source tie (DESIGN §10): the five functions of glencoe_writer.py are re-translated on every run (Gen/Src_glencoe.v); C08_source_writer proves the translated _to_json equal to glencoe_write for every model with distinct feature names (Python's stable sort against the model's sort: C08_source_writer_needs_distinct_names), so C08_source_roundtrip is the round trip of the translated writer."),
         note="Coq kernel; extraction/driver; harness; json module round trip; no axioms",
-        technique="Coq proof (round-trip through a name-keyed table, sorting lemmas) + differential correspondence",
+        technique="Coq proof (round-trip through a name-keyed table, sorting lemmas) + differential correspondence + source re-translated into Gallina on every run (tools/py2coq.py) and proved equal to the model",
         design="4 C08"),
     "C06": dict(
         text=("Theorems over the Gallina transcription of afm_writer / afm_reader around the external ANTLR parser: for every "
